@@ -367,6 +367,9 @@ class Tree:
             return [["BASE1"]]
         return [tok(p) for p in rp.split(os.sep) if p]
 
+    def _in_T(self, rp):
+        return rp == self.T or rp.startswith(self.T + os.sep)
+
     # serving
     async def _serve(self, fs, msg):
         from aiocoap.message import Direction
@@ -483,6 +486,10 @@ class Tree:
             "neff": neff,
             "chg": chg,
             # report-only fields (not read by the specification)
+            "x_host": any(
+                e["k"] != "probe" and e["path"] and not self._in_T(e["path"]) and e["path"] not in (os.sep, self.base1)
+                for e in effects
+            ),
             "x_etag": (resp.opt.etag if resp is not None and resp.code.is_successful() else None),
             "x_code": str(resp.code) if resp is not None else None,
             "x_payload": (resp.payload[:48].hex() if resp is not None else None),
